@@ -277,8 +277,21 @@ def check_property(prop, tier, seed, replay=None):
             if line not in lines:
                 lines.append(line)
             return False
-        path = write_replay(pid, dict(property=pid, kind="failing-input", source=source, description=desc,
-                                      case=strip_meta(case), implementation_result=hres.get("r"), broken=broken))
+        original = None
+        if not replay:
+            try:
+                from . import shrink as S
+                sm = S.shrink(prop, case, strip_meta)
+                if sm is not None and not match_known(pid, sm[0], sm[2], known):
+                    original = strip_meta(case)
+                    case, hres, desc = sm
+            except Exception as ex:      # shrinking is best effort
+                notes.append("shrinking failed: %r" % ex)
+        payload = dict(property=pid, kind="failing-input", source=source, description=desc,
+                       case=strip_meta(case), implementation_result=hres.get("r"), broken=broken)
+        if original is not None:
+            payload["shrunk_from"] = original
+        path = write_replay(pid, payload)
         lines.append("VIOLATION property=%s replay=%s" % (pid, path))
         violations += 1
         return True
